@@ -10,8 +10,10 @@ import (
 	"net/http"
 	"net/http/httptest"
 	"os"
+	"strconv"
 	"strings"
 	"testing"
+	"time"
 
 	"pgregory.net/rapid"
 
@@ -192,7 +194,7 @@ func gz(b []byte) []byte {
 }
 
 func recC12() *vkit.Recorder {
-	r := vkit.Rec("C12", "exploration", "rapid-generated exposition payloads (samples, dropped samples, comments, blank, malformed and long lines, multi-byte runes, LF/CRLF, with/without final newline; thorough: up to several MiB and a native fuzz target over raw bytes) x read-chunk patterns (incl. 1-byte chunks) x gzip (one or several members)/identity x short-write patterns on the Prometheus side x target assigned or not; sub-second and fractional scrape timeouts (the transport refuses requests whose deadline has passed); unit TestC12Listener: every request sent through Proxy.Run's TCP listener as a forward proxy and into ServeHTTP, paths not in shortest form and query strings, both answers and the URL the target is asked for compared; plus interleaved scrapes (the harness suspends one scrape inside a Write while others, possibly after failed gzip scrapes, run to completion on one P); oracle: bytes recorded by the ResponseWriter == payload before compression, Content-Type == the target's, status 200; non-trivial = payload larger than one 64 KiB parser block, or >1 read chunk, or gzip, or a short write occurred; distinct = digest of the case")
+	r := vkit.Rec("C12", "exploration", "rapid-generated exposition payloads (samples, dropped samples, comments, blank, malformed and long lines, multi-byte runes, LF/CRLF, with/without final newline; thorough: up to several MiB and a native fuzz target over raw bytes) x read-chunk patterns (incl. 1-byte chunks) x gzip (one or several members)/identity x short-write patterns on the Prometheus side x target assigned or not; sub-second and fractional scrape timeouts (the transport refuses requests whose deadline has passed), requests carry the headers of a Prometheus scrape incl. X-Prometheus-Scrape-Timeout-Seconds; unit TestC12Listener: every request sent through Proxy.Run's TCP listener as a forward proxy and into ServeHTTP, paths not in shortest form and query strings, both answers and the URL the target is asked for compared; plus interleaved scrapes (the harness suspends one scrape inside a Write while others, possibly after failed gzip scrapes, run to completion on one P); oracle: bytes recorded by the ResponseWriter == payload before compression, Content-Type == the target's, status 200; non-trivial = payload larger than one 64 KiB parser block, or >1 read chunk, or gzip, or a short write occurred; distinct = digest of the case")
 	r.Assume("every line is shorter than the statistics parser's 256 KiB line limit (stated precondition of the property); short writes return n < len(p) with a nil error and n >= 1")
 	return r
 }
@@ -234,7 +236,19 @@ func runC12(rec *vkit.Recorder, c *c12Case) []vkit.Violation {
 		}
 	}
 	w := &shortWriter{hdr: http.Header{}, writes: c.Writes}
-	n.proxy.ServeHTTP(w, httptest.NewRequest("GET", proxyURL("ja", 7, "h7:80", "/metrics", nil), nil))
+	preq := httptest.NewRequest("GET", proxyURL("ja", 7, "h7:80", "/metrics", nil), nil)
+	// the headers a Prometheus scrape carries; the timeout header announces the job's scrape_timeout in seconds
+	preq.Header.Set("Accept", "application/openmetrics-text;version=1.0.0,application/openmetrics-text;version=0.0.1;q=0.75,text/plain;version=0.0.4;q=0.5,*/*;q=0.1")
+	preq.Header.Set("Accept-Encoding", "gzip")
+	preq.Header.Set("User-Agent", "Prometheus/2.34.0")
+	tmo := 10 * time.Second
+	if c.Timeout != "" {
+		if d, err := time.ParseDuration(c.Timeout); err == nil {
+			tmo = d
+		}
+	}
+	preq.Header.Set("X-Prometheus-Scrape-Timeout-Seconds", strconv.FormatFloat(tmo.Seconds(), 'f', -1, 64))
+	n.proxy.ServeHTTP(w, preq)
 	var vs []vkit.Violation
 	tag := "assigned"
 	if !c.Assigned {
